@@ -12,6 +12,7 @@ mod c_node;
 mod c_confchange;
 mod monitor;
 mod c_raftlog;
+mod findings;
 
 fn main() {
     let args: Vec<String> = std::env::args().collect();
@@ -28,6 +29,7 @@ fn main() {
         "node" => c_node::main(rest),
         "confchange" => c_confchange::main(rest),
         "monitor" => monitor::main(rest),
+        "finding" => findings::main(rest),
         "raftlog" => c_raftlog::main(rest),
         other => {
             eprintln!("unknown component {}", other);
